@@ -9,12 +9,14 @@ from .lib.mir import AnchorLost
 CONFIGS_QUICK = ["A"]
 CONFIGS_THOROUGH = ["A", "R"]
 TECHNIQUE = "intra-procedural taint (provenance of every value pushed to the output) over all serializer methods; separator literal tables of writer vs reader; support matrix of serialize_*/deserialize_*"
-LEVEL_TEXT = ('Decides clauses C09-a/b/c: in every method of the URL-encoded Serializer and of its compound serializers, whatever is appended to the output is a '
+LEVEL_TEXT = ('Decides clauses C09-a..d: in every method of the URL-encoded Serializer and of its compound serializers, whatever is appended to the output is a '
               'separator literal (& = ,), the literals true/false, the to_string of a numeric primitive, or the result of percent_encode -- a &str or char parameter '
               'never reaches the output raw; the separators the writer emits are exactly the bytes the reader dispatches on; None/unit are written as the empty '
               'section and read back by testing for it; for every serde data-model kind the serializer supports, the matching deserialize_* is not an unconditional '
-              'error; deserialize_char accepts exactly the decoded texts of one Unicode scalar value (decided by the char iterator, not by a byte length). Decides '
-              'these clauses, not round-trip equality for all values (e.g. the comma-separated sequence reader).')
+              'error; deserialize_char accepts exactly the decoded texts of one Unicode scalar value (decided by the char iterator, not by a byte length); the '
+              'sequence reader steps over the `,` the writer puts between elements, raises no `separator missing` error on the path that found the separator, and '
+              'decodes each element with the decoder of scalar values. Decides these clauses, not round-trip equality for all values (e.g. the comma-separated '
+              'sequence reader).')
 
 SER = r"ohkami_lib::serde_urlencoded::ser::URLEncodedSerializer"
 NUMERIC = {"u8", "u16", "u32", "u64", "u128", "usize", "i8", "i16", "i32", "i64", "i128", "isize", "f32", "f64"}
@@ -29,6 +31,7 @@ def run(ck, progs):
         ck.guard("C09-a TAINT serializer", lambda: c09a(ck, prog))
         ck.guard("C09-b TABLE grammar", lambda: c09b(ck, prog))
         ck.guard("C09-c DECISION char", lambda: c09c(ck, prog))
+        ck.guard("C09-d PAIR sequence reader", lambda: c09d(ck, prog))
     ck.config = None
 
 
@@ -212,3 +215,42 @@ def c09c(ck, prog):
                       who, "chars().next() facts are %r" % by_iter, ", and it tests the byte length" if bytelen else ""),
                   how="visit_char only when chars().next() is Some and the following next() is None")
     ck.floor(R, "deserialize_char implementations", n, 3)
+
+
+def c09d(ck, prog):
+    """The writer puts `,` between the elements of a sequence and writes each element like a scalar value. The reader
+    (CommaSeparated) therefore (1) must not report the separator missing on the path where it has just found it, and
+    (2) must decode an element with the decoder of scalar values (percent-decoding, numbers, bools), not with a raw
+    byte-slice deserializer."""
+    R = "C09-d PAIR sequence reader"
+    f = prog.one(r"SeqAccess<'de> for ohkami_lib::serde_urlencoded::de::CommaSeparated<'de>>::next_element_seed$")
+    n = 0
+    for bb, kind, pl in paths.ret_sites(f):
+        if kind != "Err":
+            continue
+        n += 1
+        found = None
+        for fa in guards.facts_at(f, prog, bb):
+            if fa.kind == "boolcall" and fa.truth and fa.call.name in ("eq", "starts_with", "is_some_and") and any("const 44" in decision.describe_deep(f, a, 3) or "','" in decision.describe_deep(f, a, 3) for a in fa.call.args):
+                found = fa
+            if fa.kind == "cmp" and fa.op == "Eq" and fa.rhs and fa.rhs[-1][0] == "const" and guards.const_int(fa.rhs[-1][1]) == 44 and "section" in guards.describe_origin(f, fa.lhs):
+                found = fa
+        ok = found is None
+        ck.ob(R, "reader:separator-error-not-under-separator-found#%d" % (n - 1), ok, f.loc(f.blocks[bb]["t"].get("sp")),
+              "" if ok else "CommaSeparated::next_element_seed answers Err(%s) on the path where the next byte *is* `,`: every sequence of two or more elements the writer produces (`a=x,y`) is refused"
+              % decision.describe_deep(f, pl[2][0], 2)[:40], how="no error is raised under the edge that found the separator")
+    des = [c for c in f.calls() if c.name == "deserialize" and re.search(r"DeserializeSeed::deserialize$", c.decl or c.callee or "")]
+    if len(des) != 1:
+        raise AnchorLost("expected one seed.deserialize(..) in CommaSeparated::next_element_seed, found %d" % len(des))
+    dty = (des[0].targs or ["", ""])[-1]
+    ok = "URLEncodedDeserializer" in dty
+    ck.ob(R, "reader:element-decoder", ok, f.loc(des[0].sp),
+          "" if ok else "a sequence element is decoded by `%s`, not by the URL-encoded value decoder: elements are not percent-decoded and numbers / bools / chars cannot be read at all (`a=1,2,3` into Vec<u32> fails), "
+          "although the writer emits each element exactly like a scalar value" % dty[:70], how="seed.deserialize(&mut URLEncodedDeserializer over the element)")
+    # the separator is consumed: after the first element the section kept for the next call is advanced past the `,`
+    stores = decision.field_stores(f, "section")
+    adv = [bi for bi, st, agg in stores if re.search(r"split_first|get_unchecked|index\(|split_at\(.*const 1|strip_prefix", decision.describe_deep(f, st["r"][1] if st["r"][0] == "use" else st["p"], 4))]
+    ok = len(stores) >= 2 and bool(adv)
+    ck.ob(R, "reader:separator-consumed", ok, f.loc(None),
+          "" if ok else "no assignment to `section` steps over the `,` that ended the previous element (%d assignment(s) to `section`): the second element would start with the separator" % len(stores),
+          how="section = rest (after split_first / [1..]) on the non-first path")
